@@ -83,11 +83,22 @@ type SetSys[T comparable] struct {
 	// Custom overrides construction (default constructor treeset.New[T cmp.Ordered]).
 	Custom func(vals ...T) *setAPI[T]
 	Label  string
+	// MaxSize > 0: Add tuples are not offered once the reference has that many members (element
+	// types with non-reflexive equality: every Add(NaN) is a new member)
+	MaxSize int
+	// Deep mode (insertion-ordered sets): members are fresh values the fingerprint drops; the
+	// alphabet adds a fresh member, re-adds / removes the member at a few positions, and removes with
+	// a long argument list
+	Gen func(i int) T
+	N   int
 }
 
 func (s *SetSys[T]) Name() string {
 	if s.Kind == "treeset" {
 		return s.Kind + "/" + s.CmpN + s.Label
+	}
+	if s.Gen != nil {
+		return s.Kind + "/deep"
 	}
 	return s.Kind + s.Label
 }
@@ -141,6 +152,14 @@ func defaultSetTuples(u int) [][]int {
 			}
 		}
 	}
+	// long argument lists (17 and 33 arguments): one value repeated, the last value repeated, all values cycling
+	for _, k := range []int{17, 33} {
+		a, b, c := make([]int, k), make([]int, k), make([]int, k)
+		for i := 0; i < k; i++ {
+			a[i], b[i], c[i] = 0, u-1, i%u
+		}
+		ts = append(ts, a, b, c)
+	}
 	return ts
 }
 
@@ -149,6 +168,65 @@ type setBox[T comparable] struct {
 	a    *setAPI[T]
 	ref  []T   // members: comparator order (tree), insertion order (linked), any (hash)
 	reps [][]T // admissible representatives per member class (tree, coarse comparators)
+	next int   // fresh-value counter (deep mode)
+}
+
+// eqv: equality of observed values, with NaN equal to NaN (the reference's member lookup keeps
+// using ==, like the containers)
+func eqv[T comparable](a, b T) bool { return a == b || (a != a && b != b) }
+
+func litePositions(max int) []int {
+	seen := map[int]bool{}
+	var r []int
+	for _, p := range []int{0, 1, max / 2, max - 2, max - 1, max} {
+		if p >= 0 && p <= max && !seen[p] {
+			seen[p] = true
+			r = append(r, p)
+		}
+	}
+	return r
+}
+
+// deep alphabet: A[0] = kind-specific
+func (b *setBox[T]) deepOps() []Op {
+	n := len(b.ref)
+	var ops []Op
+	if n < b.sys.N {
+		ops = append(ops, op("AddFresh", 1))
+		if n+3 <= b.sys.N {
+			ops = append(ops, op("AddFresh", 3))
+		}
+	}
+	if n > 0 {
+		for _, p := range litePositions(n - 1) {
+			ops = append(ops, op("AddAt", p), op("RemoveAt", p), op("RemoveLong", p))
+		}
+	}
+	return append(ops, op("RemoveAbsent"), op("Clear"))
+}
+
+// deepArgs resolves a deep op into the argument values
+func (b *setBox[T]) deepArgs(o Op) []T {
+	switch o.N {
+	case "AddFresh":
+		vs := make([]T, o.A[0])
+		for i := range vs {
+			vs[i] = b.sys.Gen(b.next + 1 + i)
+		}
+		return vs
+	case "AddAt", "RemoveAt":
+		return []T{b.ref[o.A[0]]}
+	case "RemoveLong": // 17 arguments: the member at the position, absent values and repetitions
+		vs := make([]T, 17)
+		for i := range vs {
+			vs[i] = b.sys.Absent
+		}
+		vs[3], vs[11] = b.ref[o.A[0]], b.ref[o.A[0]]
+		return vs
+	case "RemoveAbsent":
+		return []T{b.sys.Absent}
+	}
+	return nil
 }
 
 func (b *setBox[T]) tuple(ti int) []T {
@@ -161,8 +239,14 @@ func (b *setBox[T]) tuple(ti int) []T {
 }
 
 func (b *setBox[T]) Ops() []Op {
+	if b.sys.Gen != nil {
+		return b.deepOps()
+	}
 	var ops []Op
 	for ti := range b.sys.Tuples {
+		if b.sys.MaxSize > 0 && len(b.ref) >= b.sys.MaxSize && len(b.sys.Tuples[ti]) > 0 {
+			continue
+		}
 		ops = append(ops, op("Add", ti))
 	}
 	for ti := range b.sys.Tuples {
@@ -174,6 +258,13 @@ func (b *setBox[T]) Ops() []Op {
 func (b *setBox[T]) Describe(o Op) string {
 	if o.N == "Clear" {
 		return "Clear()"
+	}
+	if b.sys.Gen != nil {
+		nm := "Add"
+		if strings.HasPrefix(o.N, "Remove") {
+			nm = "Remove"
+		}
+		return fmt.Sprintf("%s(%v...)", nm, b.deepArgs(o))
 	}
 	return fmt.Sprintf("%s(%v...)", o.N, b.tuple(o.A[0]))
 }
@@ -225,6 +316,31 @@ func (b *setBox[T]) Step(o Op) *Viol {
 func (b *setBox[T]) Content() *Viol { return b.content() }
 
 func (b *setBox[T]) Do(o Op) *Viol {
+	if b.sys.Gen != nil && o.N != "Clear" {
+		vs := b.deepArgs(o)
+		arg := argSlice(vs)
+		if strings.HasPrefix(o.N, "Add") {
+			if o.N == "AddFresh" {
+				b.next += len(vs)
+			}
+			b.a.add(arg...)
+			if v := scribbleCheck(arg, b.sys.Poison, b.a.values, b.a.name, "Add"); v != nil {
+				return v
+			}
+			for _, x := range vs {
+				b.refAdd(x)
+			}
+		} else {
+			b.a.remove(arg...)
+			if v := scribbleCheck(arg, b.sys.Poison, b.a.values, b.a.name, "Remove"); v != nil {
+				return v
+			}
+			for _, x := range vs {
+				b.refRemove(x)
+			}
+		}
+		return nil
+	}
 	switch o.N {
 	case "Add":
 		vs := b.tuple(o.A[0])
@@ -275,12 +391,12 @@ func (b *setBox[T]) content() *Viol {
 			pr = tag("C04", "C09")
 		}
 		for i, m := range b.ref {
-			if !b.sys.same(vals[i], m) {
+			if !b.sys.same(vals[i], m) && !eqv(vals[i], m) {
 				return viol(pr, "mismatch", "Values() = %v, reference order = %v", vals, b.ref)
 			}
 			ok := false
 			for _, r := range b.reps[i] {
-				if r == vals[i] {
+				if eqv(r, vals[i]) {
 					ok = true
 				}
 			}
@@ -308,6 +424,12 @@ func (b *setBox[T]) CheckState() *Viol {
 	}
 	// Contains for every tuple of length <= 2 over universe + absent, and the empty call
 	vals := append(append([]T{}, b.sys.U...), b.sys.Absent)
+	if b.sys.Gen != nil {
+		vals = []T{b.sys.Absent}
+		if n > 0 {
+			vals = append(vals, b.ref[0], b.ref[n/2], b.ref[n-1])
+		}
+	}
 	ts := [][]T{{}}
 	for _, x := range vals {
 		ts = append(ts, []T{x})
@@ -327,21 +449,29 @@ func (b *setBox[T]) CheckState() *Viol {
 	}
 	if n > 0 {
 		// long argument lists with repetitions
+		allFound := func(xs []T) bool { // by the reference's own lookup (a NaN member is never found)
+			for _, x := range xs {
+				if b.find(x) < 0 {
+					return false
+				}
+			}
+			return true
+		}
 		long := append(append([]T{}, b.ref...), b.ref...)
-		if !b.a.contains(argSlice(long)...) {
-			return viol(tag("C04"), "mismatch", "Contains(every member, twice: %d arguments) = false", len(long))
+		if got := b.a.contains(argSlice(long)...); got != allFound(long) {
+			return viol(tag("C04"), "mismatch", "Contains(every member, twice: %d arguments) = %v", len(long), got)
 		}
 		for _, k := range []int{9, 16, 33} {
 			rep := make([]T, k)
 			for i := range rep {
 				rep[i] = b.ref[(i*7)%n]
 			}
-			if !b.a.contains(argSlice(rep)...) {
-				return viol(tag("C04"), "mismatch", "Contains(%v...) = false although every argument is a member of %v", rep, b.ref)
+			if got := b.a.contains(argSlice(rep)...); got != allFound(rep) {
+				return viol(tag("C04"), "mismatch", "Contains(%v...) = %v, members %v", rep, got, b.ref)
 			}
 			rep[k/2] = b.sys.Absent
-			if b.find(b.sys.Absent) < 0 && b.a.contains(argSlice(rep)...) {
-				return viol(tag("C04"), "mismatch", "Contains(%v...) = true although %v is not a member of %v", rep, b.sys.Absent, b.ref)
+			if got := b.a.contains(argSlice(rep)...); got != allFound(rep) {
+				return viol(tag("C04"), "mismatch", "Contains(%v...) = %v, members %v", rep, got, b.ref)
 			}
 		}
 	}
@@ -357,7 +487,7 @@ func (b *setBox[T]) CheckState() *Viol {
 		i := 0
 		for it.Next() {
 			idx, v := it.Cur()
-			if i >= n || idx.(int) != i || v.(T) != b.ref[i] {
+			if i >= n || idx.(int) != i || !eqv(v.(T), b.ref[i]) {
 				return viol(tag("C04", "C09", "C02"), "mismatch", "iteration element #%d = (%v, %v), reference sequence %v", i, idx, v, b.ref)
 			}
 			i++
@@ -421,7 +551,11 @@ func sortRunesIf(c bool, s string) string {
 	return string(r)
 }
 
-func (b *setBox[T]) Fresh() Box            { return b.sys.newBox() }
+func (b *setBox[T]) Fresh() Box {
+	nb := b.sys.newBox()
+	nb.next = b.next
+	return nb
+}
 func (b *setBox[T]) JSONKind() string      { return "array" }
 func (b *setBox[T]) Unordered() bool       { return b.sys.Kind == "hashset" }
 func (b *setBox[T]) ContainerName() string { return b.a.name }
